@@ -761,6 +761,10 @@ instance : Inhabited (V3 Float) := ⟨⟨0, 0, 0⟩⟩
 def fmeshOut (m : List (V3 Float) × List Tri) : String :=
   m.2.foldl (fun s t => s ++ s!" {t.1} {t.2.1} {t.2.2}") (fpts m.1 ++ s!" {m.2.length}")
 
+def fsectionM : Option (Section.Result Float) → String
+  | none => "panic" | some .negative => "neg" | some .positive => "pos"
+  | some (.intersect v sg) => sg.foldl (fun s e => s ++ s!" {e.1} {e.2}") (s!"poly {fpts v} {sg.length}")
+
 def fcut : Option (Split (Cut.MeshOut Float)) → String
   | none => "panic"
   | some .negative => "neg"
@@ -1150,9 +1154,7 @@ def handler (fn : String) : Option Handler :=
         | none => "skip bad-args" }
   | "tm_section_m" => some {
       model := fun a => run (do let m ← pmeshIn; let n ← pv3; let bias ← pf; let eps ← pf; pend
-                                pure (match Section.localSection m.pts m.tris n bias eps with
-                                  | none => "panic" | some .negative => "neg" | some .positive => "pos"
-                                  | some (.intersect v sg) => sg.foldl (fun s e => s ++ s!" {e.1} {e.2}") (s!"poly {fpts v} {sg.length}"))) a
+                                pure (fsectionM (Section.localSection m.pts m.tris n bias eps))) a
       oracle := fun a o => match run (do let m ← pmeshIn; let n ← pv3; let bias ← pf; let eps ← pf; pend; pure (m, n, bias, eps)) a with
         | some (m, n, bias, eps) =>
           if !(m.pts.all finite3 && finite3 n && FloatIO.isFinite bias && FloatIO.isFinite eps) then "skip nonfinite-input" else
@@ -1160,6 +1162,29 @@ def handler (fn : String) : Option Handler :=
           if q eps < 0 then "skip negative-epsilon" else
           if !nearR N.normSq 1 then "skip non-unit-normal" else
           sectionOracle m (fun p => N.dot p - bi) (some (colourFloat n bias eps)) (q eps) (meshScale m bi) o
+        | none => "skip bad-args" }
+  | "tm_section_m_pos" => some {
+      model := fun a => run (do let m ← pmeshIn; let pos ← piso3; let n ← pv3; let bias ← pf; let eps ← pf; pend
+                                pure (fsectionM (Section.sectionPos m.pts m.tris pos n bias eps))) a
+      oracle := fun a o => match run (do let m ← pmeshIn; let pos ← piso3; let n ← pv3; let bias ← pf; let eps ← pf; pend; pure (m, pos, n, bias, eps)) a with
+        | some (m, pos, n, bias, eps) =>
+          if !(m.pts.all finite3 && finite3 n && finite3 pos.t && FloatIO.isFinite bias && FloatIO.isFinite eps) then "skip nonfinite-input" else
+          let N := q3 n; let bi := q bias; let M := qiso3 pos
+          if q eps < 0 then "skip negative-epsilon" else
+          if !nearR N.normSq 1 then "skip non-unit-normal" else
+          if !unitQ pos then "skip non-unit-quaternion" else
+          let (la, lb) := planeToLocal pos n bias
+          sectionOracle m (fun p => N.dot (M.act p) - bi) (some (colourFloat la lb eps)) (q eps) (meshScale m bi + maxAbs3 M.t) o
+        | none => "skip bad-args" }
+  | "tm_section_m_canon" => some {
+      model := fun a => run (do let m ← pmeshIn; let ax ← pnat; let bias ← pf; let eps ← pf; pend
+                                if h : ax < 3 then pure (fsectionM (Section.sectionCanonical m.pts m.tris ⟨ax, h⟩ bias eps)) else pure "panic") a
+      oracle := fun a o => match run (do let m ← pmeshIn; let ax ← paxis; let bias ← pf; let eps ← pf; pend; pure (m, ax, bias, eps)) a with
+        | some (m, ax, bias, eps) =>
+          if !(m.pts.all finite3 && FloatIO.isFinite bias && FloatIO.isFinite eps) then "skip nonfinite-input" else
+          let bi := q bias
+          if q eps < 0 then "skip negative-epsilon" else
+          sectionOracle m (fun p => p.get ax.val - bi) (some (colourFloat (ithAxis ax) bias eps)) (q eps) (meshScale m bi) o
         | none => "skip bad-args" }
   | "tm_split" => some {
       model := fun _ => some "oracle-only"
